@@ -255,6 +255,9 @@ func (n *namer) genCmdBody(c *Cmd) {
 				}
 			}
 			sc.SubOptional = r.Chance(cfg.PSubOptional, 100)
+			if sc.SubOptional && r.Chance(1, 4) {
+				sc.SubOptText = r.Pick([]string{"yes", "1", "no", "false", "0", "x"})
+			}
 			sc.Hidden = r.Chance(cfg.PHiddenCmd, 100)
 			if r.Chance(cfg.PDesc, 100) {
 				sc.Desc = fmt.Sprintf("cd%03d command text", id) + r.Pick([]string{"", "", "", " 100%", " %v"})
